@@ -759,6 +759,9 @@ sqrt_float(Type& to, const Type from, Rounding_Dir dir) {
     limit_precision(to);
     fpu_restore_rounding_direction(old);
   }
+  if (To_Policy::check_fpu_nan_result && is_nan<To_Policy>(to)) {
+    return V_NAN;
+  }
   return result_relation<To_Policy>(dir);
 }
 
